@@ -418,6 +418,10 @@ SN = ("sigbits.New", "sigbits/sigbits.go", "func New(")
 BW = ("bitword.newBW", "bitword/bitword.go", "func newBW(")
 FS = ("bitword.bitWord.FromStrs", "bitword/bitword.go", ") FromStrs(")
 TS = ("bitword.bitWord.ToStrs", "bitword/bitword.go", ") ToStrs(")
+PS = ("bmtree.PathStr", "bmtree/pathstr.go", "func PathStr(")
+S1 = ("bitmap.select32single", "bitmap/select.go", "func select32single(")
+IU = ("bitmap.indexSelectU64", "bitmap/select.go", "func indexSelectU64(")
+SU = ("bitmap.selectU64Indexed", "bitmap/select.go", "func selectU64Indexed(")
 def U(f):
     return ("mathext/util." + f, "mathext/util/util.go", "func " + f + "(")
 BITMAP_INIT = ("bitmap/bitmap.go", "func init() {")
@@ -465,6 +469,19 @@ CASES7 = [
     ("ClapU64: bounds swapped", "break") + U("ClapU64") + ("\tif n < min {\n\t\tn = min\n\t}\n\tif n > max {\n\t\tn = max\n\t}\n", "\tif n < max {\n\t\tn = max\n\t}\n\tif n > min {\n\t\tn = min\n\t}\n"),
     ("ClapI16: lower bound not applied", "break") + U("ClapI16") + ("\tif n < min {\n\t\tn = min\n\t}\n", ""),
     ("ClapI: n > max -> n >= max … n = max-1", "break") + U("ClapI") + ("\tif n > max {\n\t\tn = max\n\t}\n", "\tif n >= max {\n\t\tn = max - 1\n\t}\n"),
+    ("select32single: base += 32 -> base += 16", "break") + S1 + ("base += 32", "base += 16"),
+    ("select32single: off the end returns l*64 - 1", "break") + S1 + ("\t\t\treturn l * 64\n", "\t\t\treturn l*64 - 1\n"),
+    ("select32single: i < 0 returns 0", "break") + S1 + ("\t\treturn -1\n", "\t\treturn 0\n"),
+    ("select32single: findIth -= ones dropped in the skipping branch", "break") + S1 + ("\t\t} else {\n\t\t\tfindIth -= ones\n\t\t}\n", "\t\t}\n"),
+    ("indexSelectU64: multiplier loses its top byte", "break") + IU + ("c *= 0x0101010101010101", "c *= 0x0001010101010101"),
+    ("indexSelectU64: the 0x80 flags are not set", "break") + IU + ("return c | 0x8080808080808080", "return c"),
+    ("indexSelectU64: mask0011 = all1/5 -> all1/3", "break") + IU + ("mask0011 := (all1 / 5)", "mask0011 := (all1 / 3)"),
+    ("selectU64Indexed: (findIth+1) -> findIth", "break") + SU + ("v := (findIth + 1) * 0x0101010101010101", "v := findIth * 0x0101010101010101"),
+    ("selectU64Indexed: & ^7 -> & ^3", "break") + SU + ("& (^7)", "& (^3)"),
+    ("selectU64Indexed: result without + ithU8", "break") + SU + ("return int32(vv) + int32(ithU8), 0", "return int32(vv), 0"),
+    ("PathStr: shift 32+treeHeight-l -> 31+treeHeight-l", "break") + PS + ("path>>uint(32+treeHeight-l)", "path>>uint(31+treeHeight-l)"),
+    ("PathStr: width l -> l+1", "break") + PS + ("fmt.Sprintf(\"%0[1]*[2]b\", l, ", "fmt.Sprintf(\"%0[1]*[2]b\", l+1, "),
+    ("PathStr: the test l == 0 dropped (the root prints as \"0\")", "break") + PS + ("\tif l == 0 {\n\t\treturn \"\"\n\t}\n", ""),
     # ---- rewrites that leave the SSA unchanged: the tie must survive -----------------------------------------
     ("initMasks: comment", "survive") + IM + ("\tfor i := 0; i < 65; i++ {\n", "\t// all widths\n\tfor i := 0; i < 65; i++ {\n"),
     ("NewBuilder: blank lines", "survive") + NB + ("\treturn b\n", "\n\n\treturn b\n"),
@@ -503,6 +520,9 @@ CASES7 = [
     ("FromStrs: an entry is written through after it was stored (rst[i][0] = 0)", "unsupported") + FS + ("rst[i] = w.FromStr(s)", "rst[i] = w.FromStr(s)\n\t\tif len(rst[i]) > 0 {\n\t\t\trst[i][0] = 0\n\t\t}"),
     ("MinI8: arithmetic on int8", "unsupported") + U("MinI8") + ("\t\treturn a\n", "\t\treturn a + 0\n"),
     ("MaxI16: conversion to int16", "unsupported") + U("MaxI16") + ("\t\treturn a\n", "\t\treturn int16(int32(a))\n"),
+    ("PathStr: another format (%[1]*[2]b, padded with spaces)", "unsupported") + PS + ("\"%0[1]*[2]b\"", "\"%[1]*[2]b\""),
+    ("PathStr: the format is not a constant", "unsupported") + PS + ("return fmt.Sprintf(\"%0[1]*[2]b\", l, ", "f := \"%0[1]*\"\n\tif l > 40 {\n\t\tf = \"%[1]*\"\n\t}\n\treturn fmt.Sprintf(f+\"[2]b\", l, "),
+    ("PathStr: fmt.Sprint of the value", "unsupported") + PS + ("return fmt.Sprintf(\"%0[1]*[2]b\", l, path>>uint(32+treeHeight-l))", "return fmt.Sprint(l, path>>uint(32+treeHeight-l))"),
     ("a tree that does not build", "nobuild") + IM + ("Mask[i] = (1 << uint(i)) - 1", "Mask[i] = undefinedName"),
 ]
 
@@ -715,14 +735,15 @@ def difftest(args, scratch):
                "UNEXPECTED: lean=%r go=%r %s" % (rl.stdout[-400:], rg.stdout[-400:], (rl.stderr + rg.stderr)[-300:]))
     return res
 
-XINIT = ["bitmap.initMasks", "bitmap.initSelectLookup", "bmtree.init", "bitmap.NewTailBitmap", "bitmap.NewBuilder", "sigbits.New"]
+XINIT = ["bitmap.initMasks", "bitmap.initSelectLookup", "bmtree.init", "bitmap.NewTailBitmap", "bitmap.NewBuilder", "sigbits.New", "bmtree.PathStr"]
 
 
 def difftest7(args, scratch):
     """Differential test of the initialiser / constructor translation (no tie involved): the tables `Mask … RBit`,
     `select8Lookup`, `idxToPath` as the REAL package initialisation leaves them (printed by testdata/xinit_main.go, built
     with -tags verif) must equal the tables the regenerated initialisers return when Lean EVALUATES them; likewise the
-    fields of `NewTailBitmap(128)`, `NewBuilder(1000)` and the counters of `New(keys).CountPrefixes`."""
+    fields of `NewTailBitmap(128)`, `NewBuilder(1000)`, the counters of `New(keys).CountPrefixes`, and the bytes of `PathStr` of four
+    path words (this exercises the trusted contract `GoSem7.sprintfBinPad` against the real `fmt.Sprintf`)."""
     res = {"case": "initialiser / constructor translation: generated Lean evaluated against the tables of the running Go program",
            "expect": "difftest", "target": ",".join(XINIT)}
     d = os.path.join(scratch, "difftest7")
@@ -743,6 +764,7 @@ def difftest7(args, scratch):
             if not m.group(1).startswith("Generated.Ssa7.") and m.group(1) not in imports:
                 imports.append(m.group(1))
     imports.append("Generated.Ssa3.sigbits_SigBits_CountPrefixes")
+    imports.append("Generated.Ssa.bmtree_NewPath")
     lean_file = os.path.join(d, "Eval.lean")
     open(lean_file, "w").write("".join("import %s\n" % i for i in imports) + "".join(IMPORT_RE.sub("", t) for t in texts) +
                                open(os.path.join(td, "xinit_eval.lean.txt")).read())
@@ -757,7 +779,7 @@ def difftest7(args, scratch):
     lean_lines, go_lines = nums(rl.stdout), nums(rg.stdout)
     total = sum(len(l) for l in go_lines)
     ok = rl.returncode == 0 and rg.returncode == 0 and "none" not in rl.stdout and "error" not in rl.stdout \
-        and len(go_lines) == 19 and total > 2400 and lean_lines == go_lines
+        and len(go_lines) == 23 and total > 2400 and lean_lines == go_lines
     res.update(ok=ok, lines=len(go_lines),
                outcome=("%d lines, %d numbers agree" % (len(go_lines), total)) if ok else
                "UNEXPECTED: lean=%r go=%r %s" % (rl.stdout[-300:], rg.stdout[-300:], (rl.stderr + rg.stderr)[-400:]))
